@@ -146,7 +146,10 @@ def shard(binpath, seed, sh, n):
     for i in range(n):
         depth = rng.choice([1, 1, 2, 3])
         for _ in range(20):
-            node = pipeline.make_node(rng, W, depth, ["ed0"], FUNC, delegate_prob=0.6)
+            # step names - which become file and directory names - with dots, blanks and non-ASCII letters too
+            nst = rng.choice([1, 2, 3])
+            node = pipeline.make_node(rng, W, depth, ["ed0"], FUNC, nsteps=nst, delegate_prob=0.6,
+                                      names=rng.sample(pipeline.STEP_NAMES + ["pkg.deb", "build.v2", "x.y.z", "a.b"], nst))
             dl = delegated(node)
             if dl:
                 break
